@@ -211,7 +211,13 @@ class ScriptedBroker(AsyncBroker):
                      retries=str((message.labels or {}).get("_retries", 0)))
         sc.kicked.append(message)
         if self.kick_lat:
-            await asyncio.sleep(self.kick_lat)
+            # (a send takes time: back-pressure, a slow connection).  The owner is the execution that sends.
+            owner = OWNER.get()
+            sc.trace.add("kick_wait", owner, n=n)
+            try:
+                await asyncio.sleep(self.kick_lat)
+            finally:
+                sc.trace.add("kick_wait_end", owner, n=n)
         if n in self.kick_fail or self.kick_fail == "all":
             sc.trace.add("kick_fail", OWNER.get(), task_id=message.task_id, n=n)
             kind = (sc.spec.get("kick_exc") or ["BackendDown"])
@@ -582,6 +588,11 @@ def _make_hook(sc: Scenario, i: int, hook: str, hs: Dict[str, Any]) -> Any:
                 raise asyncio.CancelledError(f"{hook}{i}")
             raise HookBoom(f"{hook}{i}")
         if returns_msg:
+            if hs.get("retag") and hook == "pre_execute":
+                # a worker-side middleware that namespaces task ids: what is executed (and stored) is the message it returns
+                new = message.model_copy(deep=True)
+                new.task_id = message.task_id + "@w"
+                return new
             if replace:
                 new = message.model_copy(deep=True)
                 new.labels[f"mk_{i}_{hook}"] = "1"
@@ -723,9 +734,10 @@ def build_functions(sc: Scenario, broker: AsyncBroker) -> None:
         a_kw = "(), {}" if strict else ("args, dict(kwargs, req=req)" if ts.get("model_param") else "args, kwargs")
         if ts.get("fn", "async") == "async":
             pt = "pt" if ts.get("progress") else "None"
+            cx = "ctx" if ts.get("ctx") else "None"
             src = (
                 f"async def {fn}({ps}):\n"
-                f"    return await _run_beh(_sc, tok, {a_kw}, {depvals}, {echo}, {pt})\n"
+                f"    return await _run_beh(_sc, tok, {a_kw}, {depvals}, {echo}, {pt}, {cx})\n"
             )
         else:
             src = (
@@ -803,7 +815,7 @@ def _outcome(sc: Scenario, d: Any, tok: str, beh: Dict[str, Any], depvals: Any, 
     raise exc
 
 
-async def _run_beh(sc: Scenario, tok: str, args: Any, kwargs: Any, depvals: Any, echo: Any, pt: Any = None) -> Any:
+async def _run_beh(sc: Scenario, tok: str, args: Any, kwargs: Any, depvals: Any, echo: Any, pt: Any = None, ctx: Any = None) -> Any:
     d = OWNER.get()
     beh = _beh_for(sc, tok)
     sc.trace.add("task_start", d, tok=tok, args=safe_json(list(args)), kwargs=safe_json(kwargs),
@@ -850,6 +862,17 @@ async def _run_beh(sc: Scenario, tok: str, args: Any, kwargs: Any, depvals: Any,
                     await asyncio.sleep(step)
         sc.trace.add("task_end", d, how="cancelled")
         raise
+    if beh.get("out") == "requeue" and ctx is not None:
+        # the function hands its message back to the broker (Context.requeue) - which ends it without a result
+        sc.trace.add("requeue_begin", d)
+        try:
+            await ctx.requeue()
+        except asyncio.CancelledError:
+            sc.trace.add("task_end", d, how="cancelled")
+            raise
+        except NoResultError:
+            sc.trace.add("task_end", d, how="noresult")
+            raise
     if pt is not None:
         await pt.set_progress("FINISHING")  # state only: keeps the meta reported earlier for *this* task id
         pr = await pt.get_progress()
@@ -939,6 +962,7 @@ def build_payload(sc: Scenario, broker: AsyncBroker, m: Dict[str, Any], tok: str
 
 
 DEFAULT_TASKS = {"t_async": {"fn": "async"}, "t_sync": {"fn": "sync"}, "t_model": {"fn": "async", "model_param": True},
+                 "t_ctx": {"fn": "async", "ctx": True},
                  "t_asyncified": {"fn": "async", "asyncified": True},
                  "t_plain": {"fn": "async", "plain_param": True}, "t_plain_sync": {"fn": "sync", "plain_param": True}}
 
